@@ -493,12 +493,15 @@ def py3_test_value(test):
 
 class FuncRef(object):
     """A function or method of the repo."""
-    __slots__ = ("module", "cls", "node")
+    __slots__ = ("module", "cls", "node", "exact")
 
-    def __init__(self, module, cls, node):
+    def __init__(self, module, cls, node, exact=False):
         self.module = module
         self.cls = cls
         self.node = node
+        # ``cls`` is the class of the receiver itself (a rule analysing "serialize() of a Release"), not merely the class the
+        # method is looked up from: calls on self then dispatch to what *this* class sees, whatever subclasses override
+        self.exact = exact
 
     @property
     def qname(self):
@@ -822,9 +825,9 @@ class Model(object):
             # of this class
             lk = c.lookup(name)
             if lk is not None and lk[0].qname != "common.MetadataBase" and name not in lk[0].properties:
-                return FuncRef(lk[0].module, c, lk[1])
+                return FuncRef(lk[0].module, c, lk[1], exact=True)
             raise AnalysisError("anchor vanished: method %s.%s not found" % (cls_qname, name))
-        return FuncRef(c.module, c, c.methods[name])
+        return FuncRef(c.module, c, c.methods[name], exact=True)
 
     def function(self, mod, name):
         m = self.module(mod)
